@@ -243,7 +243,7 @@ func runPubStack(e *vlib.Env) vlib.Result {
 		}
 		layers[i] = l
 	}
-	if e.Idx%10 == 3 && depth >= 2 { // make sure the "same metrics decorator twice" stacks are frequent
+	if e.Idx%12 == 3 && depth >= 2 { // make sure the "same metrics decorator twice" stacks are frequent
 		p := r.Perm(depth)
 		layers[p[0]] = &pubLayer{Kind: "M"}
 		layers[p[1]] = &pubLayer{Kind: "M"}
